@@ -1,6 +1,7 @@
 package doccomposer
 
 import (
+	"github.com/trustbloc/sidetree-go/pkg/document"
 	verifrt "github.com/trustbloc/sidetree-go/pkg/internal/verifrt"
 	"github.com/trustbloc/sidetree-go/pkg/patch"
 )
@@ -22,6 +23,9 @@ func failingPatch() patch.Patch {
 // the patch values, whether it succeeds or fails at the k-th patch; a failure yields no partial document.
 func Harness_C12_ComposerInputs() {
 	doc, _, _, _ := c10Doc(1+verifrt.Choose("nk", 2), 1, 1)
+	if verifrt.Choose("empty-doc", 2) == 1 {
+		doc = document.Document{} // empty but non-nil: the state a degraded create/recover or a deactivate leaves behind
+	}
 	st := &refState{other: map[string]interface{}{}}
 	var patches []patch.Patch
 	n := 1 + verifrt.Choose("npatches", 2)
